@@ -163,8 +163,11 @@ def gen_request(rng, endpoint, **over):
     else:
       layout = rng.choice(["single", "single", "two", "constraint", "two_constraint"])
   n_opt = {"single": 1, "two": 2, "constraint": 1, "two_constraint": 2, "search": 0}[layout]
-  n_con = {"single": 0, "two": 0, "constraint": rng.randint(1, 2), "two_constraint": 1, "search": rng.randint(1, 3)}[layout]
-  n_stored = rng.randint(0, 1)
+  # up to four constraint metrics and two stored ones: index lists are arbitrary sub-lists of a shuffled range (unsorted,
+  # with stored metrics in between)
+  n_con = {"single": 0, "two": 0, "constraint": rng.choice([1, 1, 2, 2, 3, 4]), "two_constraint": rng.choice([1, 1, 2, 3]),
+           "search": rng.randint(1, 3)}[layout]
+  n_stored = rng.choice([0, 0, 1, 1, 2])
   m = n_opt + n_con + n_stored
   perm = list(range(m))
   rng.shuffle(perm)
